@@ -56,6 +56,15 @@ func (s *Mut) Apply(st *state.StateDB, op string, idx int) (ob string, ok bool) 
 		st.SetState(Acc[0], Slots[0], common.BigToHash(big.NewInt(7)))
 	case "store0(A0)": // clear the slot
 		st.SetState(Acc[0], Slots[0], common.Hash{})
+	case "store(A0,s1)": // a second slot of the same account: 0 -> 1 -> 2 -> 0 (deletion)
+		cur := st.GetState(Acc[0], Slots[1]).Big()
+		nv := new(big.Int).Add(cur, one)
+		if nv.Cmp(big.NewInt(3)) >= 0 {
+			nv.SetInt64(0)
+		}
+		st.SetState(Acc[0], Slots[1], common.BigToHash(nv))
+	case "store0(A0,s1)":
+		st.SetState(Acc[0], Slots[1], common.Hash{})
 	case "code(A1)":
 		st.SetCode(Acc[1], append(st.GetCode(Acc[1]), 0x01))
 	case "suicide(A0)":
@@ -75,6 +84,11 @@ func (s *Mut) Apply(st *state.StateDB, op string, idx int) (ob string, ok bool) 
 		st.AddPreimage(common.BigToHash(big.NewInt(int64(1000+idx))), []byte{byte(idx)})
 	case "refund":
 		st.AddRefund(1)
+	case "refund-": // the EIP-2200 "slot recreated" path: part of the refund is taken back
+		if st.GetRefund() < 1 {
+			return "none", true
+		}
+		st.SubRefund(1)
 
 	case "vcreate(V1)":
 		return fmt.Sprint(CreateVal(st, 1, Tok(3, 5), params.ValidatorOffline) != nil), true
